@@ -411,6 +411,107 @@ def bind_adopts_bound_submodule(x, w1, w2, keep):
   return enc(x) == x * w1 + 1
 
 
+class SetupClash(nn.Module):
+  kind: int = 0
+
+  def setup(self):
+    if self.kind == 0:
+      self.a = Leaf(name='proj')
+      self.b = Leaf(name='proj', mult=4)          # same explicit name twice
+    elif self.kind == 1:
+      self.layers = [Leaf(), Leaf(mult=4)]        # -> layers_0, layers_1
+      self.layers_0 = Leaf(mult=5)                # collides with the list entry
+    elif self.kind == 2:
+      self.layers_0 = Leaf(mult=5)
+      self.layers = [Leaf(), Leaf(mult=4)]
+    else:
+      self.a = Leaf()
+      self.b = Leaf(mult=4)                       # no clash (control)
+
+  def __call__(self, x):
+    if self.kind == 0:
+      return self.b(self.a(x))
+    if self.kind in (1, 2):
+      return self.layers_0(self.layers[1](self.layers[0](x)))
+    return self.b(self.a(x))
+
+
+class Nest(nn.Module):
+  kind: int = 0
+
+  @nn.compact
+  def __call__(self, x):
+    return SetupClash(kind=self.kind)(x)
+
+
+@with_rng_stub
+def setup_name_clashes(kind, nested, x):
+  """submodules defined in setup() that resolve to the same name raise instead of
+  silently sharing one variable subtree (any nesting depth)"""
+  kind = pick([0, 1, 2, 3], kind)
+  mod = Nest(kind=kind) if nested else SetupClash(kind=kind)
+  try:
+    y, vs = mod.init_with_output(_KEY, x)
+  except errors.NameInUseError:
+    return kind != 3
+  if kind != 3:
+    return False
+  vs = plain(vs)
+  inner = vs['params']['SetupClash_0'] if nested else vs['params']
+  return inner == {'a': {'w': 3}, 'b': {'w': 4}} and y == (x * 3 + 1) * 4 + 1
+
+
+class Scale(nn.Module):
+  @nn.compact
+  def __call__(self, x):
+    s = self.param('scale', lambda rng, shape: np.ones(shape), x.shape[-1:])
+    return x * s
+
+
+class SharedScale(nn.Module):
+  setup_style: bool = False
+
+  def setup(self):
+    if self.setup_style:
+      self.sc = Scale()
+
+  @nn.compact
+  def __call__(self, a, b):
+    sc = self.sc if self.setup_style else Scale(name='sc')
+    return sc(a).sum() + sc(b).sum()
+
+
+def shape_check_everywhere(wa, wb, setup_style, mutable_params):
+  """a parameter whose stored shape differs from what its initializer asks for
+  raises ScopeParamShapeError -- also while the params collection is mutable (init,
+  apply(mutable=['params'])) -- instead of being silently accepted"""
+  wa, wb = pick([1, 2, 4], wa), pick([1, 2, 4], wb)
+  a, b = np.ones((2, wa)), np.ones((2, wb))
+  mod = SharedScale(setup_style=bool(setup_style))
+  try:
+    vs = mod.init(_KEY, a, b)
+    ok_init = True
+  except errors.ScopeParamShapeError:
+    ok_init = False
+  if ok_init != (wa == wb):
+    return False
+  # a stored parameter of the wrong shape
+  good = plain(mod.init(_KEY, a, a))
+  bad = {'params': {'sc': {'scale': np.ones((wa + 1,))}}}
+  for variables, want_ok in ((good, True), (bad, False)):
+    try:
+      if mutable_params:
+        mod.apply(variables, a, a, mutable=['params'])
+      else:
+        mod.apply(variables, a, a)
+      ok = True
+    except errors.ScopeParamShapeError:
+      ok = False
+    if ok != want_ok:
+      return False
+  return True
+
+
 EXPLANATION = (
     'C02: compact parents with <=2 Leaf children whose names are drawn from a pool '
     'containing the automatic names the program itself generates, an own param / '
@@ -454,6 +555,18 @@ def obligations(tier):
          timeout=600, funcs=F, per_path_timeout=60.0),
       Ob('shared_between_parents', shared_between_parents,
          dict(x=I(-3, 3), w=I(-3, 3)), timeout=600, funcs=F, per_path_timeout=60.0),
+      Ob('setup_name_clashes', setup_name_clashes,
+         dict(kind=I(0, 3), nested=B(), x=I(-3, 3)), split=('kind',), timeout=300,
+         funcs=F, per_path_timeout=60.0,
+         bounds='setup(): the same explicit name twice, a list attribute vs. the '
+                'attribute name it generates (both orders), a clash-free control; at '
+                'the root or inside a compact parent'),
+      Ob('shape_check_everywhere', shape_check_everywhere,
+         dict(wa=I(0, 2), wb=I(0, 2), setup_style=B(), mutable_params=B()),
+         split=('wa',), timeout=300, funcs=F, per_path_timeout=60.0,
+         bounds='a shared sub-module whose param shape follows its input, called on '
+                'widths from {1,2,4}; stored params of the wrong shape; params '
+                'mutable or not'),
       Ob('declaration_sequences', declaration_sequences,
          dict(k0=I(0, 3), n0=I(0, 1), k1=I(0, 3), n1=I(0, 1), k2=I(0, 3), n2=I(0, 1),
               x=I(-3, 3)), split=('k0', 'k1'), timeout=600, funcs=F,
